@@ -1967,6 +1967,8 @@ POLY_FUNCTIONS = [
       consts={"FAST_MULTIPLY_CUTOFF_THRESHOLD": ("(Int.ofNat TF.Gen.FAST_MULTIPLY_CUTOFF_THRESHOLD)", "isize")}, **THREE),
     S("square", "square", callees={"fast_square": ([P_FF], P_FF, True)}),
     S("reduce", "reduce", callees={"fast_reduce": ([P_FF, P_FF], P_FF, True)}),
+    S("fast_pow", "fast_pow", callees={"fast_square": ([P_FF], P_FF, True), "fast_multiply": ([P_FF, P_FF], P_FF, True)},
+      consts={"FAST_MULTIPLY_CUTOFF_THRESHOLD": ("(Int.ofNat TF.Gen.FAST_MULTIPLY_CUTOFF_THRESHOLD)", "isize")}),
     # ---- NTT-based products on top of `ntt` / `intt` (parameters: the regenerated transforms of ntt.rs)
     S("fast_multiply", "fast_multiply",
       callees={"ntt": ([("list", ("elem", "FF"))], ("list", ("elem", "FF")), True),
@@ -1979,7 +1981,7 @@ POLY_FUNCTIONS = [
 ]
 
 # functions of polynomial.rs that are deliberately attempted and expected to be REFUSED (recorded under `outside_subset`)
-POLY_OUTSIDE = ["fast_pow", "xgcd", "batch_multiply", "par_batch_multiply", "fast_reduce", "formal_power_series_inverse_minimal",
+POLY_OUTSIDE = ["xgcd", "batch_multiply", "par_batch_multiply", "fast_reduce", "formal_power_series_inverse_minimal",
                 "formal_power_series_inverse_newton", "structured_multiple_of_degree", "reduce_by_structured_modulus",
                 "shift_factor_ntt_with_tail_length", "reduce_by_ntt_friendly_modulus", "fast_coset_evaluate", "are_colinear",
                 "lagrange_interpolate", "naive_zerofier", "clean_divide"]
